@@ -56,7 +56,7 @@ def shard(ctx):
                 ctx.violation(f'match_drops_presupplied_binding:{how}', 'a pre-supplied binding was changed or dropped', W(pattern=pat, instance=inst_, seed_key=k, result=str(sigma)))
                 return
 
-    n = ctx.scale(32000, 1200000)
+    n = ctx.scale(128000, 1200000)
     pool = gp.concrete_pool(rng, 80, 2, syms=('a', 'b'))
     for k in range(n):
         pe = rp.rand_term(rng, rng.randint(0, 3), meta=rng.random() < 0.85, notation=0.3, substs=False, constrained=0.0, mvs=(0, 1, 2))
@@ -123,7 +123,7 @@ def shard(ctx):
             check_sound(pat, pe, ins2, ie2, sigma, {}, 'match_single')
 
     # ---- equation lists
-    n = ctx.scale(16000, 500000)
+    n = ctx.scale(64000, 500000)
     for k in range(n):
         m = rng.choice((0, 1, 1, 2, 2, 3, 4))
         all_ground = rng.random() < 0.2
@@ -192,7 +192,7 @@ def shard(ctx):
                     check_sound(pat, pe2, ins, ie2, s2, {}, 'match_list')
 
     # ---- notations: apply and deconstruct
-    n = ctx.scale(32000, 800000)
+    n = ctx.scale(128000, 800000)
     items = T.items
     for k in range(n):
         key, N_, fam, de, sf = items[k % len(items)] if k < 4 * len(items) else rng.choice(items)
